@@ -17,7 +17,7 @@ def one(e):
         rep = run_property(e['prop'], 'quick', '/repo', overlay=ov)
     except Exception as x:
         return dict(e, outcome='crash', detail=repr(x))
-    r, u = rep.refuted(), rep.undecided()
+    r, u = rep.new_refuted(), rep.undecided()
     if r:
         return dict(e, outcome='refuted', detail=f"{r[0].rule} {r[0].where}: {r[0].desc[:100]}", n=len(r))
     if u or rep.errors:
